@@ -100,6 +100,23 @@ def run(ctx):
                     continue
                 if len(whole) != n_rec:
                     ctx.observe("whole-read-count-differs-from-model(C02's business)", {"cfg": cfg, "data": fc["data"].decode("latin1"), "got": len(whole), "model": n_rec})
+                for k in [k_ for k_ in ks if k_ >= max_entry][:3] + [k_ for k_ in ks if k_ >= max_entry][-1:]:
+                    # one chunk with read_chunk, the rest of the file with read(): together the entries of the file
+                    try:
+                        rd = open_reader(ctx, fc, path, gz_path, entry, lazy)
+                        first = rd.read_chunk(min_chunk_size=k)
+                        rest = rd.read()
+                        both_rows = (tables.rows_of(first, fields) if first is not None else []) + (tables.rows_of(rest, fields) if rest is not None and len(rest) else [])
+                        rd.close()
+                    except Exception as e:
+                        if not originates_in_library(e):
+                            raise
+                        et, site = exc_site(e)
+                        ctx.judged("read_chunk+read", (fc["data"], cfg, k, "cr"))
+                        ctx.violation("read_chunk-then-read/raised:%s" % ("gzip-or-prepend" if entry in ("open-gz", "bytesio-prepend") else "plain"), "read_chunk(%d) followed by read() raised %s: %s" % (k, et, str(e)[:100]), {"cfg": cfg, "k": k, "data": fc["data"].decode("latin1")})
+                        continue
+                    ctx.check("read_chunk+read", both_rows == whole, "read_chunk-then-read/different-entries:%s" % ("gzip-or-prepend" if entry in ("open-gz", "bytesio-prepend") else "plain"),
+                              "read_chunk(%d) + read() gave %d entries, the file has %d" % (k, len(both_rows), len(whole)), {"cfg": cfg, "k": k, "data": fc["data"].decode("latin1"), "got": both_rows[:6]}, (fc["data"], cfg, k, "cr"))
                 for k in ks:
                     ctx.count("reads_attempted")
                     try:
